@@ -20,6 +20,9 @@ pub use filtering::verif_hooks as verif_filtering;
 #[cfg(feature = "verif")]
 #[doc(hidden)]
 pub use hints::verif_candidates;
+#[cfg(feature = "verif")]
+#[doc(hidden)]
+pub use hints::verif_dynamic;
 pub mod helpers;
 mod hints;
 pub mod replay;
